@@ -29,7 +29,8 @@ FINDING_ML = "C09-memtable-last-time"
 FINDING_DR = "C09-desc-firstlast-rowpath"
 FINDING_DS = "C09-desc-firstlast-shortcut"
 FINDING_DD = "C09-desc-dup-rowpath"
-ALL_FINDINGS = (FINDING_CT, FINDING_ML, FINDING_DR, FINDING_DS, FINDING_DD)
+FINDING_AS = "C09-aux-string-selector"
+ALL_FINDINGS = (FINDING_CT, FINDING_ML, FINDING_DR, FINDING_DS, FINDING_DD, FINDING_AS)
 FN = {"count": 0, "sum": 1, "min": 2, "max": 3, "first": 4, "last": 5, "mean": 6}
 KIND = {0: 0, 1: 1, 2: 2, 3: 3}  # field id -> column kind (integer, float, boolean, string)
 
@@ -41,6 +42,9 @@ def explain(c, colgroup, open_ids):
     gkey = grp.split("/")[0]
     hosts = (c.get("group_hosts") or {}).get(gkey) or [gkey]
     g = next((x for x in (c.get("groups") or []) if x["col"] == int(ci) and x["group"] == grp), None)
+    if c.get("has_aux") and call["field"] == 3 and call["fn"] in ("first", "last") and c["preagg"] and FINDING_AS in open_ids:
+        # `SELECT first|last(<string field>), <aux field>` on the shortcut: the selected string is overwritten
+        return FINDING_AS
     if c.get("desc"):
         fl = call["fn"] in ("first", "last")
         # first()/last() return the value of another row
@@ -73,6 +77,8 @@ TEXT = {
                 "so first() returns the newest and last() the oldest value of the group / bucket",
     FINDING_DD: "ORDER BY time DESC on the row path (hint / field filter / time bucket): a (series,time) stored in two flush generations is "
                 "aggregated twice - count/sum include the overwritten version, min/max/first/last may return it",
+    FINDING_AS: "`SELECT first|last(<string field>), <aux field>` on the statistics shortcut: the memtable builder keeps the selected string as a "
+                "slice of the column buffer that setColValInAux then rewrites - the statement returns other bytes (e.g. ' yy' for 'x y')",
     FINDING_DS: "ORDER BY time DESC with GROUP BY tag on the statistics shortcut: file reader and memtable builder compute positional first/last "
                 "on reversed data and the partial results are merged by time: first()/last() return the value of another row",
 }
@@ -269,6 +275,7 @@ def main(ck):
     known = {f: 0 for f in ALL_FINDINGS}
     eligible = {f: 0 for f in ALL_FINDINGS}
     modes, ncalls, shapes = {}, {}, {}
+    aux = {"statements": 0, "groups_checked": 0, "aux_value_mismatches": 0}
 
     def report(kind, what, detail):
         nonlocal viol
@@ -294,7 +301,14 @@ def main(ck):
             eligible[FINDING_ML] += bool(c["preagg"] and c.get("sig_mem_last") and not c.get("desc"))
             eligible[FINDING_DR] += bool(c.get("desc") and fl and not c["preagg"] and c["compared"])
             eligible[FINDING_DS] += bool(c.get("desc") and fl and c["preagg"] and c["compared"] and c.get("group_by"))
+            eligible[FINDING_AS] += bool(c.get("has_aux") and c["calls"][0]["field"] == 3 and c["preagg"] and c["compared"])
             eligible[FINDING_DD] += bool(c.get("desc") and not c["preagg"] and c["compared"] and c.get("sig_dup"))
+            if c.get("has_aux"):
+                aux["statements"] += 1
+                aux["groups_checked"] += c.get("aux_checked", 0)
+                if c.get("aux_fail"):
+                    aux["aux_value_mismatches"] += 1
+                    aux.setdefault("first_mismatch", {"sql": c["sql"], "what": c["aux_fail"], "history_case": h["case"]})
             if not c.get("fail"):
                 continue
             why = [explain(c, cg, open_ids) for cg in (c.get("fail_cols") or [])] if c.get("fail_cols") else [None]
@@ -427,6 +441,11 @@ def main(ck):
                       ">= 2 rows on a shard holding >= 2 files or a series with >= 2 segments; distinct = (history, statement)")
     ck.cov["query_histogram(fn/path)"] = modes
     ck.cov["statement_shapes"] = shapes
+    ck.cov["selector_with_aux_field"] = aux
+    if aux["aux_value_mismatches"]:
+        ck.notes.append("observation (not a failure of C09, whose statement is about the functions' values): in %d of %d selector-with-aux statements "
+                        "(`SELECT last(x), y`) the aux value is not the aux field of a row carrying the selected value - all on the statistics shortcut "
+                        "(readAuxData / setColValInAux row indexes); the selector's own value was right" % (aux["aux_value_mismatches"], aux["statements"]))
     ck.cov["max_segments_histogram"] = segs
     ck.cov["histories_with_cross_generation_dup"] = sum(1 for h in hs if h.get("dup"))
     ck.cov["model_groups_evaluated"] = len(groups)
